@@ -153,6 +153,15 @@ Merge ==
   /\ phase' = IF error.idx = 0 THEN "merged" ELSE "failed"
   /\ UNCHANGED << ocfg, plan, nxt, ran, pending, tree, user, error >>
 
+\* The same Observation, detector and pipeline objects are run once more (a session): the
+\* declared parameters, the caller's objects and therefore the whole space are what they were.
+Rerun ==
+  /\ phase \in {"merged", "failed"}
+  /\ phase' = "new"
+  /\ plan' = << >> /\ nxt' = 1 /\ ran' = {} /\ pending' = {} /\ tree' = << >>
+  /\ error' = [idx |-> 0, eff |-> << >>]
+  /\ UNCHANGED << ocfg, user >>
+
 ONext == Plan \/ (\E r \in 1 .. Len(plan) : MetaRun(r)) \/ (\E r \in pending : Exec(r)) \/ Merge
 
 OInitWith(c) ==
